@@ -99,3 +99,6 @@ add("C18", "mirrored sample stored pre-negated", "nifty/cl/minimization/kl_energ
 add("C19", "residuals shifted when the mean moves", "nifty/cl/minimization/sample_list.py", "        return ResidualSampleList(mean, self._r, self._n, self.comm)",
     "        return ResidualSampleList(mean, [rr + (self._m - mean) for rr in self._r], self._n, self.comm)", "R19.2")
 VARIANTS = V
+
+add("C04", "constants not removed from the position", "nifty/cl/minimization/energy_adapter.py", "            position = position.extract_by_keys(varkeys)\n", "", "R04.1")
+VARIANTS = V
